@@ -322,6 +322,19 @@ async def run_connections(st, uni, nconns, schedule, sid_map, rate_limiter=None,
     from nostr_relay.rate_limiter import NullRateLimiter
 
     rec = Recorder(st, uni, nconns, sid_map)
+    # the handler throttles misbehaving clients with real sleeps (2, 4, 8 ... seconds): give web.py its own view of
+    # the asyncio module in which sleep() only yields, and record what it asked for
+    import types
+
+    real_asyncio = web.asyncio
+    rec.sleeps = []
+
+    async def _no_sleep(delay, *a, **k):
+        rec.sleeps.append(delay)
+        await real_asyncio.sleep(0)
+
+    web.asyncio = types.SimpleNamespace(**{k: getattr(real_asyncio, k) for k in dir(real_asyncio) if not k.startswith("__")})
+    web.asyncio.sleep = _no_sleep
     conns = {}
     main = asyncio.current_task()
     rl = rate_limiter or NullRateLimiter()
@@ -403,6 +416,10 @@ async def run_connections(st, uni, nconns, schedule, sid_map, rate_limiter=None,
             elif kind == "msg":
                 cn = conns[step[1]]
                 cn.inbox.put_nowait(("msg", concretise(step[2]), step[2]))
+            elif kind == "call":
+                # dynamic messages: fn(recorder) -> [(c, frame text, abstract message)], built from what was observed so far
+                for c, text, abstract in step[1](rec):
+                    conns[c].inbox.put_nowait(("msg", text, abstract))
             elif kind == "disc":
                 conns[step[1]].inbox.put_nowait(("disc", None, None))
             elif kind == "idle":
@@ -423,6 +440,7 @@ async def run_connections(st, uni, nconns, schedule, sid_map, rate_limiter=None,
             t.cancel()
     finally:
         rec.uninstall()
+        web.asyncio = real_asyncio
     return rec.log, {c: {"result": cn.result, "close_code": cn.closed_code} for c, cn in conns.items()}, rec.errors
 
 
